@@ -10,7 +10,7 @@ import os
 from mon import refbufr as R
 from mon.compare import diff_message, opsig, jsonable
 from mon.gen import cases
-from mon import handover, midscan
+from mon import handover, midscan, forms
 
 ID = 'C01'
 LEVEL = 'exploration'
@@ -110,6 +110,10 @@ def compare_case(ctx, decoder, msg, origin, name=None):
         ctx.violate(sig, 'decoded %s differ from FM-94 reading at subset %s field %s: observed %r expected %r'
                     % (why, k, j, jsonable(obs), jsonable(exp)), spec, expected=exp, observed=obs)
         return
+    if ctx.counters['evaluations'] % 7 == 0:
+        forms.decoder_forms(ctx, msg.bytes, 'decode', spec, lambda mm: repr((mm.template_data.value.decoded_values_all_subsets,
+                                                                              [[str(x) for x in ds] for ds in mm.template_data.value.decoded_descriptors_all_subsets],
+                                                                              bytes(mm.serialized_bytes))))
     # the values a decode returned stay what they are when the message object (and objects derived from it) is used further
     handover.on_message(ctx, msg.bytes, spec, site=origin)
     # ... and the same values come out when the message is decoded while scans are under way on the same decoder
